@@ -491,3 +491,19 @@ Example C02_writer_loader_reader_ex :
   wf_msg ex_built = true /\ spec_nfds (s_fields ex_built) <= 0 /\
   wf_msg (swap_order ex_built) = true /\ s_body ex_built <> [].
 Proof. split; [vm_compute; reflexivity|]. split; [vm_compute; discriminate|]. split; [vm_compute; reflexivity|]. vm_compute. discriminate. Qed.
+
+(* the same chain with the byte-order converter in the middle (a receiver that converts to its native order,
+   or a relay that does): the converter model succeeds on the canonical bytes of every well-formed message, the
+   converted bytes followed by anything are accepted by the loader model as a message of the OTHER order,
+   header ++ body are exactly the converted bytes, and the reader reads exactly the original values with the
+   original signature.  Non-vacuity: C02_writer_loader_reader_ex. *)
+Theorem C02_byteswapped_message_received : forall m rest avail,
+  wf_msg m = true -> spec_nfds (s_fields m) <= avail ->
+  let m' := swap_order m in
+  exists b msg,
+    byteswap_message (spec_encode_message m) = Some b /\
+    load_message (negb (s_le m)) (m_flen m') (m_hlen m') (m_blen m') avail (b ++ rest) = inl msg /\
+    m_header msg ++ m_body msg = b /\
+    read_all (negb (s_le m)) (s_sig m) (m_body msg) = inl (s_body m).
+Proof. exact byteswapped_message_received. Qed.
+Print Assumptions C02_byteswapped_message_received.
